@@ -353,7 +353,56 @@ def r7(ctx):
         ctx.ob('C17.R7', fn, u, not skipped, 'message used by a condition', 'queued for polling on every path for a named non-scan message: %s' % (not skipped))
 
 
+def r8(ctx):
+    ctx.rule('C17.R8', 'only messages with a poll priority are in the poll queue: every m_pollMessages.push(m) is a re-insertion '
+             'of the entry just taken from the queue, or is reached only with m->getPollPriority() > 0 - tested in the pushing '
+             'function, or at every call of it. A message with priority 0 never advances its virtual time in getNextPoll and '
+             'stays on top of the queue, so that no other message is polled any more (a condition on a passive message puts '
+             'such a message to the front)', minimum=2)
+    fb = ctx.fb
+    n = 0
+    seen = set()
+    for fn in fb.functions:
+        if not fn.relfile.startswith('src/lib/ebus/message.') or not fn.blocks or (fn.name, fn.sig) in seen:
+            continue
+        seen.add((fn.name, fn.sig))
+        for c in fn.calls('push', 'push_back', 'emplace', 'insert'):
+            v = fn.nodes[c]
+            if 'obj' not in v or 'm_pollMessages' not in fn.key(v['obj']) or not v.get('args'):
+                continue
+            n += 1
+            ctx.touch(fn)
+            m = fn.key(v['args'][-1])
+            d = fn.def_expr(v['args'][-1])
+            if 'm_pollMessages.top()' in fn.key(d):
+                ctx.ob('C17.R8', fn, c, True, 're-insertion in %s' % fn.name.split('::', 1)[1], 'the entry taken from the queue')
+                continue
+            local = fn.needs_one_of(c, [('(%s.getPollPriority() <= #0)' % m, False), ('(%s.getPollPriority() == #0)' % m, False),
+                                        ('(%s.m_pollPriority <= #0)' % m, False), ('(%s.m_pollPriority == #0)' % m, False)])
+            ok = local
+            how = 'tested in the function'
+            if not local:
+                pidx = [i for i, p_ in enumerate(fn.params) if p_['name'] == m]
+                sites = fb.call_sites(fn.name)
+                ok = bool(pidx) and bool(sites)
+                how = 'tested at all %d call sites' % len(sites)
+                for g, cc in sites:
+                    args = g.nodes[cc].get('args', [])
+                    if not pidx or len(args) <= pidx[0] or g.block_of(cc) is None:
+                        ok = False
+                        continue
+                    a = g.key(args[pidx[0]])
+                    if not g.needs_one_of(cc, [('(%s.getPollPriority() <= #0)' % a, False), ('(%s.getPollPriority() == #0)' % a, False)]):
+                        ok = False
+                        how = 'not tested in the function and not at the call in %s (line %d)' % (g.name.split('::', 1)[-1], g.line_of(cc))
+            ctx.ob('C17.R8', fn, c, ok, 'm_pollMessages.push(%s) in %s' % (m, fn.name.split('::', 1)[1]),
+                   'only with a poll priority above 0: %s (%s)' % (ok, how))
+    if n < 2:
+        raise AnalysisBroken('C17.R8: only %d insertions into the poll queue found' % n)
+
+
 def run(ctx):
+    r8(ctx)
     r7(ctx)
     r6(ctx)
     r5(ctx)
